@@ -753,6 +753,18 @@ func (c *checker) setInfra(err error) {
 	c.mu.Unlock()
 }
 
+// refusedLoads: a server's life contains refused loads (a reload of a file with a typo); whatever
+// they leave behind in the process must not change the order in which later loads execute
+// directives. Every run - and every replay - begins with a few of them.
+func refusedLoads() error {
+	for _, typo := range []string{"basicaut /secret u p", "statu 410 /secret", "redi /a /b", "heade / X-H one", "gzi"} {
+		if _, err := hx.StartHTTP("127.0.0.1:1 {\n\t"+typo+"\n}\n", ""); err == nil {
+			return fmt.Errorf("a Casketfile with the misspelt directive %q was accepted", typo)
+		}
+	}
+	return nil
+}
+
 func ids(b []string) string { return strings.Join(b, ",") }
 
 func sameOrder(a, b []string) bool { return ids(a) == ids(b) }
@@ -1065,6 +1077,10 @@ func TestC09(t *testing.T) {
 	c := &checker{res: res, fx: fx}
 
 	if rp, ok := hx.LoadReplay[rcase](t); ok {
+		if err := refusedLoads(); err != nil {
+			res.Infra = err.Error()
+			return
+		}
 		replayOne(t, c, &rp)
 		return
 	}
@@ -1162,6 +1178,10 @@ func TestC09(t *testing.T) {
 		runners = append(runners, rn)
 	}
 	c.warmed = true
+	if err := refusedLoads(); err != nil {
+		res.Infra = err.Error()
+		return
+	}
 	if !hx.SelfTest() {
 		plainNeutral = true // also a sanity phase: is the model of each single line still the code's?
 		c.findDrift(runners[workers], blocks)
